@@ -724,9 +724,9 @@ func (cx *Ctx) checkVerifierArguments(r *Report) {
 		allow []string
 	}{
 		{"rsa:signature", matchCallee("crypto/rsa.VerifyPKCS1v15"), 3, []string{sig}},
-		{"rsa:digest", matchCallee("crypto/rsa.VerifyPKCS1v15"), 2, []string{sum, "ext:crypto/sha*", "const:zero"}},
+		{"rsa:digest", matchCallee("crypto/rsa.VerifyPKCS1v15"), 2, []string{sum, "ext:crypto/sha*", "ext:sha1.*", "ext:sha256.*", "ext:sha512.*", "const:zero"}},
 		{"dsa:signature", matchCallee("encoding/asn1.Unmarshal"), 0, []string{sig}},
-		{"dsa:digest", matchCallee("crypto/dsa.Verify"), 1, []string{sum, "ext:crypto/sha*", "const:zero"}},
+		{"dsa:digest", matchCallee("crypto/dsa.Verify"), 1, []string{sum, "ext:crypto/sha*", "ext:sha1.*", "ext:sha256.*", "ext:sha512.*", "const:zero"}},
 	} {
 		ls, sites := lvf.CallArgSources(a.match, a.idx)
 		if len(sites) == 0 {
